@@ -804,7 +804,8 @@ type (
 // Pos and End implementations for spec nodes.
 
 func (s *ImportSpec) Pos() token.Pos {
-	if s.Name != nil {
+	// Wa writes the local name after the path (`"path" => name`)
+	if s.Name != nil && s.Name.Pos() < s.Path.Pos() {
 		return s.Name.Pos()
 	}
 	return s.Path.Pos()
@@ -815,6 +816,9 @@ func (s *TypeSpec) Pos() token.Pos  { return s.Name.Pos() }
 func (s *ImportSpec) End() token.Pos {
 	if s.EndPos != 0 {
 		return s.EndPos
+	}
+	if s.Name != nil && s.Name.End() > s.Path.End() {
+		return s.Name.End()
 	}
 	return s.Path.End()
 }
